@@ -9,7 +9,7 @@ is never dropped: the arm returns Ok(value derived from it through that socket's
 error, never loops; non-message items continue the loop; (R05.4) whole multipart assembly lives in the codec
 (rule R02.3 re-evaluated). Does NOT decide absence of duplication/reordering under real schedules."""
 from ..sym import show, walk_expr
-from ..common import short, trait_impls, coroutine_of
+from ..common import short, trait_impls, coroutine_of, strip_view
 from .. import pathq
 from . import fq, tables
 
@@ -155,8 +155,22 @@ def run(ctx, f, rep):
                                   "%s: after a decoded message the receive loop is not re-entered (enumeration cut at bb%s)" % (ty, p.cut_at[1] if p.cut_at else None), co.loc())
                         continue
                     rk = pathq.ret_kind(p)
-                    derived = p.ret is not None and (
-                        any(x == msg_expr or (isinstance(x, tuple) and x and x[0] == "downcast" and x[1] == msg_expr) for x in walk_expr(p.ret)))
+                    # the returned value IS that message (moved, labelled by push_front, or its tail after split_off - the envelope rules
+                    # C07/C09 decide those), not something rebuilt from parts of it
+                    def is_that_message(e, depth=0):
+                        e = strip_view(e)
+                        if e == msg_expr or depth > 12:
+                            return e == msg_expr
+                        if e[0] == "havoc":                                   # the same local after a `&mut` call (push_front, pop_front)
+                            return is_that_message(e[3], depth + 1)
+                        if e[0] in ("call", "pure") and short(e[1]) == "split_off" and e[2]:      # its tail
+                            return is_that_message(e[2][0], depth + 1)
+                        if e[0] in ("field", "downcast"):
+                            return is_that_message(e[1], depth + 1)
+                        if e[0] == "agg" and e[1] == "adt" and e[4] and (e[3] in ("Ok", "Some") or "ZmqMessage" in str(e[2])):
+                            return all(is_that_message(o, depth + 1) for o in e[4])
+                        return False
+                    derived = p.ret is not None and is_that_message(p.ret)
                     ok = p.end == "return" and (rk == "Err" or (rk == "Ok" and derived))
                     rep.check(ok, "R05.3", "R05.3|%s|message-arm" % ty,
                               "%s: a decoded message is returned (Ok derived from it) or reported as an error, never dropped (end=%s, kind=%s, derived=%s)" % (
